@@ -32,7 +32,7 @@ variable {Key Sig : Type} [DecidableEq Key]
 /-- what a validating node sees for an accepted transaction is the validator's list -/
 theorem C17_seen_validated (cfg : Cfg) (C : Crypto Key Sig) (tx : Tx) (addrs : List Addr)
     (h : checkSigs cfg C tx = .ok addrs) : seen cfg C true tx = addrs := by
-  obtain ⟨_, _, hp⟩ := checkSigsWith_ok cfg C.toLib (verifier cfg C tx) tx addrs h
+  obtain ⟨_, _, hp⟩ := checkSigsWith_ok cfg C.toLib (verifier C tx) tx addrs h
   have hne : addrs.length ≠ 0 := by
     intro h0
     have : addrs = [] := List.eq_nil_of_length_eq_zero h0
@@ -44,7 +44,7 @@ theorem C17_function_of_bytes (cfg : Cfg) (hf : cfg.fallback = .sound) (C : Cryp
     (addrs : List Addr) (h : checkSigs cfg C tx = .ok addrs) (b1 b2 : Bool) :
     seen cfg C b1 tx = seen cfg C b2 tx := by
   have hv := C17_seen_validated cfg C tx addrs h
-  obtain ⟨_, h2, _⟩ := checkSigsWith_ok cfg C.toLib (verifier cfg C tx) tx addrs h
+  obtain ⟨_, h2, _⟩ := checkSigsWith_ok cfg C.toLib (verifier C tx) tx addrs h
   have hall := checkAll_ok cfg C.toLib _ tx.sigs addrs h2
   have hfb : seen cfg C false tx = addrs := by
     simp only [seen, Bool.false_eq_true, if_false, fallback]
@@ -64,7 +64,7 @@ single-key script holds an Ethereum-type key, both nodes see the same list. -/
 theorem C17_equal_on_canonical (cfg : Cfg) (C : Crypto Key Sig) (tx : Tx) (addrs : List Addr)
     (h : checkSigs cfg C tx = .ok addrs) (hc : ∀ rs ∈ tx.sigs, Canonical C.toLib rs.2) :
     addrs = tx.sigs.map (fun rs => C.h160 rs.2) := by
-  obtain ⟨_, h2, _⟩ := checkSigsWith_ok cfg C.toLib (verifier cfg C tx) tx addrs h
+  obtain ⟨_, h2, _⟩ := checkSigsWith_ok cfg C.toLib (verifier C tx) tx addrs h
   exact canonical_all cfg C.toLib _ tx.sigs addrs (checkAll_ok cfg C.toLib _ tx.sigs addrs h2) hc
 
 theorem C17_equal_on_canonical_seen (cfg : Cfg) (hf : cfg.fallback = .asShipped) (C : Crypto Key Sig) (tx : Tx)
